@@ -102,6 +102,28 @@ Example C13_in_context_example :
   /\ read_string (neutralise (json_str_enc [60; 47; 115]) ++ [125]) = Some ([60; 47; 115], [125]).
 Proof. vm_compute. split; reflexivity. Qed.
 
+(* One level up: a flat object whose values are strings -- an item of script / stylesheet /
+   meta, the source dictionary -- as json.dumps writes it (enc_flat_obj, run against json.dumps
+   on every check), followed by ANY text, the whole text neutralised: the object scanner
+   (dec_flat_obj, run against json.JSONDecoder().raw_decode) returns exactly the members that
+   were written, in order, for any number of members and any keys and values, and a remaining
+   text that is again of the form the in-context theorems apply to. *)
+Theorem C13_json_flat_object_in_context :
+  forall (l : list (str * str)) (r : str), Forall scalar_pair l ->
+  exists r1, ins r r1 /\ dec_flat_obj (neutralise (enc_flat_obj l ++ r)) = Some (l, r1).
+Proof. apply flat_obj_in_context_with. vm_compute. reflexivity. Qed.
+Print Assumptions C13_json_flat_object_in_context.
+
+(* non-trivial instance: two members, an end tag in a key and in a value, more JSON after it *)
+Example C13_flat_object_example :
+  dec_flat_obj (neutralise (enc_flat_obj [([60; 47; 97], [120]); ([115], [60; 47; 115; 62])] ++ [44; 32]))
+  = Some ([([60; 47; 97], [120]); ([115], [60; 47; 115; 62])], [44; 32])
+  /\ Forall scalar_pair [([60; 47; 97], [120]); ([115], [60; 47; 115; 62])].
+Proof.
+  split; [vm_compute; reflexivity|].
+  repeat constructor; cbn; apply Forall_scalarb; vm_compute; reflexivity.
+Qed.
+
 (* ------------------------------------------------------------------------------------ *)
 (* T3  extraction                                                                          *)
 (* ------------------------------------------------------------------------------------ *)
